@@ -821,6 +821,8 @@ type brInterp struct {
 	unroll   int
 	problems map[string]token.Pos
 	lines    int
+	// functions of the embedded preamble by name -> number of parameters: they shadow built-ins of the same name
+	userFuncs map[string]int
 }
 
 func (bi *brInterp) applyText(s brState, text string, pos token.Pos) (brState, bool) {
@@ -849,7 +851,9 @@ func (bi *brInterp) applyText(s brState, text string, pos token.Pos) (brState, b
 			case ch == '(' || ch == '[' || ch == '{':
 				out.stack += string(ch)
 				if ch == '(' && lastIdent != "" {
-					if b, ok := rast.BuiltinMap[lastIdent]; ok && b.Decl != nil {
+					if _, isUser := bi.userFuncs[lastIdent]; isUser {
+						out.calls = append(out.calls, brCall{len(out.stack), lastIdent, 0})
+					} else if b, ok := rast.BuiltinMap[lastIdent]; ok && b.Decl != nil {
 						out.calls = append(out.calls, brCall{len(out.stack), lastIdent, 0})
 					}
 				}
@@ -869,7 +873,11 @@ func (bi *brInterp) applyText(s brState, text string, pos token.Pos) (brState, b
 				}
 				if n := len(out.calls); n > 0 && out.calls[n-1].depth == len(out.stack) && ch == ')' {
 					cl := out.calls[n-1]
-					if b := rast.BuiltinMap[cl.name]; b != nil {
+					if want, isUser := bi.userFuncs[cl.name]; isUser {
+						if got := cl.commas + 1; got != want && got != want+1 {
+							bi.problems[fmt.Sprintf("the preamble function %s is called with %d argument(s) on some emission path; it takes %d", cl.name, got, want)] = pos
+						}
+					} else if b := rast.BuiltinMap[cl.name]; b != nil {
 						want := len(b.Decl.Args())
 						got := cl.commas + 1
 						if got != want && got != want+1 {
@@ -939,221 +947,338 @@ func (bi *brInterp) textOf(e ast.Expr) (string, bool) {
 	return "", false
 }
 
-func (bi *brInterp) run() {
-	states := map[string]brState{"": {}}
-	final := bi.block(bi.fd.Body.List, states, nil)
-	for _, s := range final {
-		if s.stack != "" {
-			bi.problems[fmt.Sprintf("the function can finish with the brackets %q still open", s.stack)] = bi.fd.Pos()
+// ---- H3 on E-sym: what a function emits, as a tree
+
+type emKind int
+
+const (
+	emText   emKind = iota // a constant piece of text
+	emHole                 // text not known here (a value, a line produced elsewhere): assumed balanced on its own
+	emRepeat               // kids once per element of the collection coll
+	emWhen                 // kids when cond holds
+	emAlt                  // one of alts
+)
+
+type emNode struct {
+	kind emKind
+	text string
+	coll string
+	cond *Sym
+	name string
+	kids []*emNode
+	alts [][]*emNode
+}
+
+// emTree turns a value computed by E-sym (a list of lines, a joined text, a concatenation) into the sequence of texts
+// it stands for, keeping the loop and condition structure.
+func emTree(s *Sym) []*emNode {
+	if s == nil {
+		return []*emNode{{kind: emHole}}
+	}
+	switch s.K {
+	case symConst:
+		if t, ok := s.ConstString(); ok {
+			return []*emNode{{kind: emText, text: t}}
+		}
+		return []*emNode{{kind: emHole}}
+	case symList:
+		var out []*emNode
+		for _, p := range s.Parts {
+			out = append(out, emTree(p)...)
+		}
+		return out
+	case symConcat:
+		// one text: constant pieces as they are, values as a placeholder; a part that joins a list of lines with a line
+		// break is kept as structure (the text before it ends a line, the text after it starts one)
+		var out []*emNode
+		var buf strings.Builder
+		flush := func() {
+			if buf.Len() > 0 {
+				out = append(out, &emNode{kind: emText, text: buf.String()})
+				buf.Reset()
+			}
+		}
+		for _, p := range s.Parts {
+			if t, ok := p.ConstString(); ok {
+				buf.WriteString(t)
+				continue
+			}
+			if p.K == symCall && p.Fn == "strings.Join" && len(p.Parts) == 2 {
+				if sep, ok := p.Parts[1].ConstString(); ok && strings.Contains(sep, "\n") {
+					flush()
+					out = append(out, emTree(p.Parts[0])...)
+					continue
+				}
+			}
+			if p.K == symRepeat || p.K == symWhen {
+				flush()
+				out = append(out, emTree(p)...)
+				continue
+			}
+			if p.K == symConcat {
+				for _, q := range emTree(p) {
+					if q.kind == emText {
+						buf.WriteString(q.text)
+					} else {
+						buf.WriteString("x")
+					}
+				}
+				continue
+			}
+			buf.WriteString("x")
+		}
+		flush()
+		return out
+	case symRepeat:
+		var kids []*emNode
+		for _, p := range s.Parts {
+			kids = append(kids, emTree(p)...)
+		}
+		return []*emNode{{kind: emRepeat, coll: s.X.String(), kids: kids}}
+	case symWhen:
+		var kids []*emNode
+		for _, p := range s.Parts {
+			kids = append(kids, emTree(p)...)
+		}
+		return []*emNode{{kind: emWhen, cond: s.X, name: s.Name, kids: kids}}
+	case symChoice:
+		n := &emNode{kind: emAlt}
+		for _, p := range s.Parts {
+			n.alts = append(n.alts, emTree(p))
+		}
+		return []*emNode{n}
+	case symCall:
+		switch {
+		case s.Fn == "strings.Join" && len(s.Parts) == 2:
+			return emTree(s.Parts[0])
+		case s.Fn == "maybe" && len(s.Parts) == 1:
+			return []*emNode{{kind: emWhen, name: s.Name, kids: emTree(s.Parts[0])}}
+		}
+	}
+	return []*emNode{{kind: emHole}}
+}
+
+func emWalk(ns []*emNode, f func(*emNode)) {
+	for _, n := range ns {
+		f(n)
+		emWalk(n.kids, f)
+		for _, a := range n.alts {
+			emWalk(a, f)
 		}
 	}
 }
 
-type loopCtx struct {
-	indexObj types.Object
-	iter     int
+// emBinding: how many elements each collection has in the run being interpreted, and where each open loop stands.
+type emBinding struct {
+	count map[string]int
+	iter  map[string]int
 }
 
-func (bi *brInterp) block(stmts []ast.Stmt, in map[string]brState, lc *loopCtx) map[string]brState {
+func (b *emBinding) evalInt(s *Sym) (int64, bool) {
+	if s == nil {
+		return 0, false
+	}
+	if v, ok := s.ConstInt(); ok {
+		return v, true
+	}
+	switch s.K {
+	case symIdx:
+		if s.X != nil {
+			if i, ok := b.iter[s.X.String()]; ok {
+				return int64(i), true
+			}
+		}
+	case symLen:
+		if s.X == nil {
+			return 0, false
+		}
+		if s.X.K == symList {
+			return b.countItems(s.X)
+		}
+		if n, ok := b.count[s.X.String()]; ok {
+			return int64(n), true
+		}
+	case symBin:
+		l, ok1 := b.evalInt(s.X)
+		r, ok2 := b.evalInt(s.Y)
+		if ok1 && ok2 {
+			switch s.Op {
+			case token.ADD:
+				return l + r, true
+			case token.SUB:
+				return l - r, true
+			case token.MUL:
+				return l * r, true
+			}
+		}
+	}
+	return 0, false
+}
+
+func (b *emBinding) evalBool(s *Sym) (bool, bool) {
+	if s == nil {
+		return false, false
+	}
+	if v, ok := s.ConstBool(); ok {
+		return v, true
+	}
+	switch s.K {
+	case symNot:
+		v, ok := b.evalBool(s.X)
+		return !v, ok
+	case symBin:
+		switch s.Op {
+		case token.LAND, token.LOR:
+			l, ok1 := b.evalBool(s.X)
+			r, ok2 := b.evalBool(s.Y)
+			if s.Op == token.LAND {
+				if ok1 && !l || ok2 && !r {
+					return false, true
+				}
+				return l && r, ok1 && ok2
+			}
+			if ok1 && l || ok2 && r {
+				return true, true
+			}
+			return l || r, ok1 && ok2
+		case token.LSS, token.LEQ, token.GTR, token.GEQ, token.EQL, token.NEQ:
+			l, ok1 := b.evalInt(s.X)
+			r, ok2 := b.evalInt(s.Y)
+			if !ok1 || !ok2 {
+				return false, false
+			}
+			switch s.Op {
+			case token.LSS:
+				return l < r, true
+			case token.LEQ:
+				return l <= r, true
+			case token.GTR:
+				return l > r, true
+			case token.GEQ:
+				return l >= r, true
+			case token.EQL:
+				return l == r, true
+			default:
+				return l != r, true
+			}
+		}
+	}
+	return false, false
+}
+
+// countItems: the number of elements of a list built with each(...) / when(...) parts under this binding.
+func (b *emBinding) countItems(list *Sym) (int64, bool) {
+	var total int64
+	for _, p := range list.Parts {
+		switch p.K {
+		case symRepeat:
+			coll := p.X.String()
+			n, ok := b.count[coll]
+			if !ok {
+				return 0, false
+			}
+			saved, had := b.iter[coll]
+			for i := 0; i < n; i++ {
+				b.iter[coll] = i
+				k, ok := b.countItems(&Sym{K: symList, Parts: p.Parts})
+				if !ok {
+					return 0, false
+				}
+				total += k
+			}
+			if had {
+				b.iter[coll] = saved
+			} else {
+				delete(b.iter, coll)
+			}
+		case symWhen:
+			v, ok := b.evalBool(p.X)
+			if !ok {
+				return 0, false
+			}
+			if v {
+				k, ok := b.countItems(&Sym{K: symList, Parts: p.Parts})
+				if !ok {
+					return 0, false
+				}
+				total += k
+			}
+		case symAcc:
+			return 0, false
+		default:
+			total++
+		}
+	}
+	return total, true
+}
+
+// run interprets the emission tree over bracket states.
+func (bi *brInterp) emRun(ns []*emNode, in map[string]brState, b *emBinding, pos token.Pos) map[string]brState {
 	cur := in
-	for _, st := range stmts {
-		cur = bi.stmt(st, cur, lc)
+	for _, n := range ns {
+		switch n.kind {
+		case emText:
+			bi.lines++
+			next := map[string]brState{}
+			for _, st := range cur {
+				if ns2, ok := bi.applyText(st, n.text, pos); ok {
+					next[ns2.key()] = ns2
+				}
+			}
+			cur = next
+		case emHole:
+			next := map[string]brState{}
+			for _, st := range cur {
+				if ns2, ok := bi.applyText(st, "x", pos); ok {
+					next[ns2.key()] = ns2
+				}
+			}
+			cur = next
+		case emRepeat:
+			cnt := b.count[n.coll]
+			saved, had := b.iter[n.coll]
+			for i := 0; i < cnt; i++ {
+				b.iter[n.coll] = i
+				cur = bi.emRun(n.kids, cur, b, pos)
+			}
+			if had {
+				b.iter[n.coll] = saved
+			} else {
+				delete(b.iter, n.coll)
+			}
+		case emWhen:
+			v, known := b.evalBool(n.cond)
+			switch {
+			case known && v:
+				cur = bi.emRun(n.kids, cur, b, pos)
+			case known:
+			default:
+				yes := bi.emRun(n.kids, cloneStates(cur), b, pos)
+				for k, v := range yes {
+					cur[k] = v
+				}
+			}
+		case emAlt:
+			out := map[string]brState{}
+			for _, a := range n.alts {
+				for k, v := range bi.emRun(a, cloneStates(cur), b, pos) {
+					out[k] = v
+				}
+			}
+			cur = out
+		}
 		if len(cur) > 64 {
-			// too many distinct stacks: give up widening (keep a subset)
-			n := map[string]brState{}
-			for k, v := range cur {
-				n[k] = v
-				if len(n) >= 64 {
+			nm := map[string]brState{}
+			for _, k := range sortedKeys(cur) {
+				nm[k] = cur[k]
+				if len(nm) >= 64 {
 					break
 				}
 			}
-			cur = n
+			cur = nm
 		}
 	}
 	return cur
-}
-
-func (bi *brInterp) stmt(st ast.Stmt, in map[string]brState, lc *loopCtx) map[string]brState {
-	info := bi.pk.TypesInfo
-	switch x := st.(type) {
-	case *ast.AssignStmt:
-		out := in
-		for _, rhs := range x.Rhs {
-			call, ok := ast.Unparen(rhs).(*ast.CallExpr)
-			if !ok {
-				continue
-			}
-			if id, ok := call.Fun.(*ast.Ident); ok && id.Name == "append" && len(call.Args) >= 2 && !call.Ellipsis.IsValid() {
-				for _, a := range call.Args[1:] {
-					if text, ok := bi.textOf(a); ok {
-						bi.lines++
-						next := map[string]brState{}
-						for _, s := range out {
-							if ns, ok := bi.applyText(s, text, a.Pos()); ok {
-								next[ns.key()] = ns
-							}
-						}
-						out = next
-					}
-				}
-			}
-		}
-		return out
-	case *ast.ExprStmt:
-		return in
-	case *ast.BlockStmt:
-		return bi.block(x.List, in, lc)
-	case *ast.IfStmt:
-		// first-iteration idiom: if i == 0 {...} else {...} on the index of the enclosing range
-		if lc != nil {
-			if be, ok := ast.Unparen(x.Cond).(*ast.BinaryExpr); ok && be.Op == token.EQL {
-				if id, ok := ast.Unparen(be.X).(*ast.Ident); ok && info.Uses[id] == lc.indexObj {
-					if v, ok := constInt(info, be.Y); ok && v == 0 {
-						if lc.iter == 0 {
-							return bi.block(x.Body.List, in, lc)
-						}
-						if x.Else != nil {
-							return bi.stmt(x.Else, in, lc)
-						}
-						return in
-					}
-				}
-			}
-			// last-iteration idiom: if i < len(xs)-1 {A} else {B}: both explored
-		}
-		// `if len(acc) > 0 {...}`: true exactly when something has been appended
-		if obj, k, ok := lenGreater(info, x.Cond); ok {
-			if tv, isSl := obj.Type().Underlying().(*types.Slice); isSl && isStringType(tv.Elem()) && k == 0 {
-				yes, no := map[string]brState{}, map[string]brState{}
-				for key, v := range in {
-					if v.appended {
-						yes[key] = v
-					} else {
-						no[key] = v
-					}
-				}
-				out := bi.block(x.Body.List, yes, lc)
-				var rest map[string]brState
-				if x.Else != nil {
-					rest = bi.stmt(x.Else, no, lc)
-				} else {
-					rest = no
-				}
-				for key, v := range rest {
-					out[key] = v
-				}
-				return out
-			}
-			// `if len(xs) > n { ...; return }`: afterwards len(xs) <= n
-			if len(x.Body.List) > 0 {
-				if _, isRet := x.Body.List[len(x.Body.List)-1].(*ast.ReturnStmt); isRet && x.Else == nil {
-					res := bi.block(x.Body.List, cloneStates(in), lc)
-					_ = res
-					if bi.bounds == nil {
-						bi.bounds = map[types.Object]int{}
-					}
-					bi.bounds[obj] = k
-					return in
-				}
-			}
-		}
-		a := bi.block(x.Body.List, cloneStates(in), lc)
-		var b map[string]brState
-		if x.Else != nil {
-			b = bi.stmt(x.Else, cloneStates(in), lc)
-		} else {
-			b = in
-		}
-		for k, v := range b {
-			a[k] = v
-		}
-		return a
-	case *ast.RangeStmt:
-		var idx types.Object
-		if id, ok := x.Key.(*ast.Ident); ok && id.Name != "_" {
-			idx = info.Defs[id]
-		}
-		// the footer idiom `if len(rego) > 0 { close }` is correlated with "at least one iteration": zero iterations are
-		// explored only when the loop is not followed by such a guard; to stay exact we explore 1..unroll iterations and the
-		// zero case separately, marking states that came through zero iterations so that a following len()>0 guard skips them.
-		out := map[string]brState{}
-		cur := in
-		maxIter := bi.unroll
-		if id, ok := ast.Unparen(x.X).(*ast.Ident); ok {
-			if b, ok := bi.bounds[info.Uses[id]]; ok && b < maxIter {
-				maxIter = b
-			}
-		}
-		for it := 0; it < maxIter; it++ {
-			cur = bi.block(x.Body.List, cloneStates(cur), &loopCtx{idx, it})
-			for k, v := range cur {
-				out[k] = v
-			}
-		}
-		// zero iterations
-		for k, v := range in {
-			out[k] = v
-		}
-		return out
-	case *ast.ForStmt:
-		out := cloneStates(in)
-		cur := in
-		for it := 0; it < bi.unroll; it++ {
-			cur = bi.block(x.Body.List, cloneStates(cur), lc)
-			for k, v := range cur {
-				out[k] = v
-			}
-		}
-		return out
-	case *ast.SwitchStmt:
-		out := map[string]brState{}
-		for _, cl := range x.Body.List {
-			cc := cl.(*ast.CaseClause)
-			for k, v := range bi.block(cc.Body, cloneStates(in), lc) {
-				out[k] = v
-			}
-		}
-		for k, v := range in {
-			out[k] = v
-		}
-		return out
-	case *ast.ReturnStmt:
-		for _, s := range in {
-			if s.stack != "" {
-				bi.problems[fmt.Sprintf("the function returns with the brackets %q still open", s.stack)] = x.Pos()
-			}
-		}
-		return map[string]brState{}
-	}
-	return in
-}
-
-// lenGreater recognises `len(x) > k` / `len(x) != 0` on a local identifier.
-func lenGreater(info *types.Info, cond ast.Expr) (types.Object, int, bool) {
-	be, ok := ast.Unparen(cond).(*ast.BinaryExpr)
-	if !ok || (be.Op != token.GTR && be.Op != token.NEQ) {
-		return nil, 0, false
-	}
-	call, ok := ast.Unparen(be.X).(*ast.CallExpr)
-	if !ok || len(call.Args) != 1 {
-		return nil, 0, false
-	}
-	if fid, ok := call.Fun.(*ast.Ident); !ok || fid.Name != "len" {
-		return nil, 0, false
-	}
-	id, ok := ast.Unparen(call.Args[0]).(*ast.Ident)
-	if !ok {
-		return nil, 0, false
-	}
-	k, ok := constInt(info, be.Y)
-	if !ok || (be.Op == token.NEQ && k != 0) {
-		return nil, 0, false
-	}
-	obj := info.Uses[id]
-	if obj == nil {
-		return nil, 0, false
-	}
-	return obj, int(k), true
 }
 
 func cloneStates(m map[string]brState) map[string]brState {
@@ -1164,6 +1289,44 @@ func cloneStates(m map[string]brState) map[string]brState {
 	return n
 }
 
+// returnsText: the function's results include a string, a list of strings, or a struct / pointer to one carrying such.
+func returnsText(sig *types.Signature) bool {
+	var textual func(t types.Type, depth int) bool
+	textual = func(t types.Type, depth int) bool {
+		switch u := t.Underlying().(type) {
+		case *types.Basic:
+			return u.Info()&types.IsString != 0
+		case *types.Slice:
+			return depth < 3 && textual(u.Elem(), depth+1)
+		case *types.Pointer:
+			return depth < 3 && textual(u.Elem(), depth+1)
+		case *types.Struct:
+			if depth >= 2 {
+				return false
+			}
+			for i := 0; i < u.NumFields(); i++ {
+				if textual(u.Field(i).Type(), depth+1) {
+					return true
+				}
+			}
+		}
+		return false
+	}
+	for i := 0; i < sig.Results().Len(); i++ {
+		if textual(sig.Results().At(i).Type(), 0) {
+			return true
+		}
+	}
+	return false
+}
+
+// c07Brackets (H3): every function of the generator is evaluated symbolically (E-sym); helpers that return no text are
+// interpreted (builder methods, loops in helpers), functions that return text are separate units whose output counts as
+// balanced where it is used.  The texts a function returns — lists of lines, joined texts, fields of a returned struct —
+// form a tree of constant texts, holes, each(collection => ...) and when(condition => ...).  A function is an emitter
+// when one of its constant texts has unbalanced brackets; its tree is then interpreted over bracket stacks for every
+// combination of 0..unroll elements per collection, conditions on loop indices and on len() of the lists being built
+// evaluated exactly (first-iteration, last-iteration and `len(acc) > 0` idioms, however they are written).
 func c07Brackets(c *Ctx) {
 	r, p := c.R, c.P
 	gen := p.Pkg("internal/generator")
@@ -1171,9 +1334,22 @@ func c07Brackets(c *Ctx) {
 		r.Unknown("C07.H3", "generator", "", "package not found")
 		return
 	}
-	unroll := 3
+	unroll := 4
 	if c.Thorough() {
-		unroll = 4
+		unroll = 5
+	}
+	inl := samePkgInline(gen)
+	inline := func(fn *types.Func) bool {
+		sig, ok := fn.Type().(*types.Signature)
+		return ok && inl(fn) && !returnsText(sig)
+	}
+	userFuncs := map[string]int{}
+	if rp, err := loadPreamble(p); err == nil {
+		for _, rl := range rp.Module.Rules {
+			if len(rl.Head.Args) > 0 {
+				userFuncs[string(rl.Head.Name)] = len(rl.Head.Args)
+			}
+		}
 	}
 	n := 0
 	for _, f := range gen.Syntax {
@@ -1182,31 +1358,113 @@ func c07Brackets(c *Ctx) {
 			if !ok || fd.Body == nil {
 				continue
 			}
-			// an emitter of multi-line constructs: appends at least one text whose brackets are unbalanced on their own
-			partial := false
-			bi := &brInterp{c: c, pk: gen, fd: fd, unroll: unroll, problems: map[string]token.Pos{}}
-			ast.Inspect(fd.Body, func(nd ast.Node) bool {
-				call, ok := nd.(*ast.CallExpr)
-				if !ok {
-					return true
+			fo, _ := gen.TypesInfo.Defs[fd.Name].(*types.Func)
+			if fo == nil {
+				continue
+			}
+			if sig, ok := fo.Type().(*types.Signature); !ok || !returnsText(sig) {
+				continue
+			}
+			type emission struct {
+				conds []symCond
+				tree  []*emNode
+			}
+			var ems []emission
+			proto := &symWalker{Inline: inline}
+			proto.OnReturn = func(w *symWalker, ret *ast.ReturnStmt, results []*Sym) {
+				if w.depth != 0 {
+					return
 				}
-				if id, ok := call.Fun.(*ast.Ident); ok && id.Name == "append" && len(call.Args) >= 2 {
-					for _, a := range call.Args[1:] {
-						if text, ok := bi.textOf(a); ok && !bracketsBalanced(text) {
-							partial = true
+				for _, res := range results {
+					var texts []*Sym
+					switch res.K {
+					case symStruct:
+						for _, k := range res.Order {
+							if fv := res.Fields[k]; fv != nil && (fv.K == symList || fv.K == symConcat || fv.K == symChoice) {
+								texts = append(texts, fv)
+							}
 						}
+					default:
+						texts = append(texts, res)
+					}
+					for _, t := range texts {
+						ems = append(ems, emission{w.Conds(), emTree(t)})
 					}
 				}
-				return true
-			})
+			}
+			p.SymWalk(gen, fd, proto, nil)
+			partial := false
+			for _, em := range ems {
+				emWalk(em.tree, func(nd *emNode) {
+					if nd.kind == emText && !bracketsBalanced(nd.text) {
+						partial = true
+					}
+				})
+			}
 			if !partial {
 				continue
 			}
 			n++
-			bi.run()
+			bi := &brInterp{c: c, pk: gen, fd: fd, unroll: unroll, problems: map[string]token.Pos{}, userFuncs: userFuncs}
+			runs := 0
+			for _, em := range ems {
+				var colls []string
+				seen := map[string]bool{}
+				emWalk(em.tree, func(nd *emNode) {
+					if nd.kind == emRepeat && !seen[nd.coll] {
+						seen[nd.coll] = true
+						colls = append(colls, nd.coll)
+					}
+				})
+				// collections named by the path condition of the return (len(paths) > 1)
+				for _, cd := range em.conds {
+					cd.Cond.Walk(func(q *Sym) {
+						if q.K == symLen && q.X != nil && q.X.K != symList && !seen[q.X.String()] {
+							seen[q.X.String()] = true
+							colls = append(colls, q.X.String())
+						}
+					})
+				}
+				free := len(colls)
+				if free > 3 {
+					free = 3 // further collections take the count of the third
+				}
+				total := 1
+				for i := 0; i < free; i++ {
+					total *= unroll + 1
+				}
+				for combo := 0; combo < total; combo++ {
+					b := &emBinding{count: map[string]int{}, iter: map[string]int{}}
+					x := combo
+					last := 0
+					for i, cl := range colls {
+						if i < free {
+							last = x % (unroll + 1)
+							x /= unroll + 1
+						}
+						b.count[cl] = last
+					}
+					feasible := true
+					for _, cd := range em.conds {
+						if v, known := b.evalBool(cd.Cond); known && v == cd.Neg {
+							feasible = false
+						}
+					}
+					if !feasible {
+						continue
+					}
+					runs++
+					final := bi.emRun(em.tree, map[string]brState{"": {}}, b, fd.Pos())
+					for _, st := range final {
+						if st.stack != "" {
+							bi.problems[fmt.Sprintf("the text the function returns can end with the brackets %q still open", st.stack)] = fd.Pos()
+						}
+					}
+				}
+			}
 			key := relOf(gen) + "." + fd.Name.Name
 			if len(bi.problems) == 0 {
-				r.OK("C07.H3", key, p.Pos(fd.Pos()), fmt.Sprintf("%d emitted texts interpreted with loops unrolled up to %d times: every closing bracket matches, nothing stays open, built-in calls have their declared arity", bi.lines, unroll))
+				r.OK("C07.H3", key, p.Pos(fd.Pos()), fmt.Sprintf("%d emitted texts interpreted over %d combinations of 0..%d elements per collection: every closing bracket matches, nothing stays open, built-in calls have their declared arity", bi.lines, runs, unroll))
 			} else {
 				for _, msg := range sortedKeys(bi.problems) {
 					r.Bad("C07.H3", key+"#"+shortFormat(msg), p.Pos(bi.problems[msg]), msg)
@@ -1484,6 +1742,10 @@ func c07AggregationsParse(c *Ctx) {
 				}
 				if unknown {
 					r.Unknown("C07.H9", kk, p.Pos(fd.Pos()), "a line emitted by the aggregation could not be evaluated")
+					continue
+				}
+				if len(text) < k+1 {
+					r.Unknown("C07.H9", kk, p.Pos(fd.Pos()), fmt.Sprintf("only %d line(s) were evaluated for %d alternative(s): what the aggregation emits was not followed", len(text), k))
 					continue
 				}
 				module := "package t\n\n" + strings.Join(text, "\n") + "\n"
